@@ -96,9 +96,12 @@ Fixpoint cont_positions (c : container) (p : pos) {struct c} : list pos :=
 (* every prefix of q, shortest first: firstn 0 q .. firstn |q| q *)
 Definition prefixes (q : pos) : list pos := map (fun k => firstn k q) (seq 0 (S (length q))).
 
-(* the objects of the story (prefix-closed by construction) *)
+Definition dedup_pos (l : list pos) : list pos :=
+  fold_right (fun x acc => if existsb (pos_eqb x) acc then acc else x :: acc) [] l.
+
+(* the objects of the story (prefix-closed by construction, each position once) *)
 Definition story_nodes (root : container) : list pos :=
-  flat_map prefixes (cont_positions root []).
+  dedup_pos (flat_map prefixes (cont_positions root [])).
 
 (* container -> child: (parent q, q) for every non-root object q *)
 Definition tree_edges (root : container) : list (pos * pos) :=
@@ -144,6 +147,16 @@ Definition static_diverts (root : container) : list pos :=
                    | Some (ODivert dv) => match d_target dv with Some _ => negb (d_external dv) | None => false end
                    | _ => false
                    end) (cont_positions root []).
+
+(* hypothesis of the characterisation, decidable: the resolved diverts and their cached
+   containers are objects of the story *)
+Definition wf_cache (root : container) (resolved : list pos) : Prop :=
+  forall d c, In (d, c) (cache_edges root resolved) ->
+              In d (story_nodes root) /\ In c (story_nodes root).
+Definition wf_cacheb (root : container) (resolved : list pos) : bool :=
+  forallb (fun e => mem pos pos_eqb (fst e) (story_nodes root) &&
+                    mem pos pos_eqb (snd e) (story_nodes root)) (cache_edges root resolved).
+
 
 (* ---------- the divert graph: the small graph that decides the same question ---------- *)
 Fixpoint is_prefixb (a b : pos) : bool :=
